@@ -47,6 +47,10 @@ func (g *Gen) nsDocOf(n NsNames, out bool) *Node {
 func (g *Gen) NsStage(n NsNames, d int) *Node {
 	if d > 0 && g.chance(0.55) {
 		inner := ArrN(ObjN("$match", g.simpleQuery()), g.NsStage(n, d-1))
+		if g.chance(0.3) {
+			// a sub-pipeline may open with a search stage ($search inside $lookup / $unionWith)
+			inner = ArrN(ObjN("$search", ObjN("index", FreeS("sub_idx"), "text", ObjN("query", g.LitClass("str", "ns-sub-search"), "path", g.path()))), g.NsStage(n, d-1), ObjN("$limit", KeepI(3)))
+		}
 		switch g.R.Intn(3) {
 		case 0:
 			return ObjN("$facet", ObjN("f1", inner, "f2", ArrN(g.NsStage(n, d-1))))
@@ -116,6 +120,13 @@ func (g *Gen) NsCase(n NsNames, db, coll, verb, carrier string, depth int) *Case
 		// collection-less command: {aggregate: 1}; only attr.ns names "$cmd"
 		cmd = ObjN("aggregate", KeepI(1), "pipeline", ArrN(ObjN("$currentOp", free(ObjN())), g.NsStage(n, depth)), "cursor", keep(ObjN()))
 		verb = "aggregate"
+	}
+	if g.chance(0.4) {
+		for _, zone := range []string{"filter", "query"} {
+			if z := cmd.Get(zone); z != nil && z.K == Obj {
+				z.Set(g.pick("collection", "ns", "find", "update", "count", "insert", "delete", "aggregate", "replace", "findAndModify"), g.LitClass("str", "ns-like-user-field"))
+			}
+		}
 	}
 	cmd.Set("lsid", g.lsid())
 	cmd.Set("$db", StrN(db).With(&Tag{Role: NsDB}))
